@@ -192,6 +192,7 @@ def cdsMonitor (ts : List String) : String :=
         else if t ≠ 1 ∧ dns ≠ "-" then some "a DNS host name on a non-LOGICAL_DNS cluster"
         else if t = 2 ∧ np = 0 then some "aggregate cluster without child clusters"
         else if t ≠ 2 ∧ np ≠ 0 then some "child clusters on a non-aggregate cluster"
+        else if lbok = "ringsize" then some "LB policy JSON is rejected by the ring_hash config parser (ring size bounds)"
         else if lbok ≠ "1" then some "LB policy JSON is not a valid LB config"
         else if odok ≠ "1" then some "outlier detection JSON is invalid"
         else if maxreq ≠ "-" ∧ maxreq.toNat?.isNone then some "max requests unparsable"
